@@ -86,11 +86,12 @@ def main(chk):
         sp = os.path.join(d, 'script.txt')
         open(sp, 'w').write(script)
         srcs = [os.path.join(d, f) for f in t.files if f.endswith('.c')] + [drv]
+        futex = [os.path.join(env.REPO, 'futex', f) for f in ('futex.c', 'list.c', 'map.c')]  # embedder side: threads implementation for shared memories
         outs = {}
         for btag, cc, fl, sanflag in builds:
             exe = os.path.join(d, 'prog-' + btag)
             # the module itself must compile without errors; warnings are not judged
-            cr = e2e.compile_c(d, srcs, exe, cc=cc, flags=fl)
+            cr = e2e.compile_c(d, srcs + futex, exe, cc=cc, flags=fl, extra=['-DWASM_THREADS_PTHREADS', '-I', os.path.join(env.REPO, 'futex')], link=['-lpthread'])
             if cr.rc != 0:
                 outs[btag] = ('compile', cr.err[-1500:])
                 continue
